@@ -144,12 +144,52 @@ def run(tier, seed, only=None):
                     import traceback
                     case["raised"] = "%s: %s | %s" % (type(e).__name__, str(e)[:200], traceback.format_exc()[-300:].replace("\n", " / "))
             cases.append(case)
+    # ---- real trained network (the repository's bottom-up test checkpoint) through the repository's own entry point
+    # main(): consecutive frames of the asset video in batches of different sizes vs each frame alone -------------------
+    if not only:
+        from harness import shim
+        from harness.realnet import predict_range
+        F = list(range(6 if tier == "quick" else 16))
+        cl = Classes()
+
+        def projr(insts):
+            return [dict(cls=cl.of(p), score=int(round(s * 1e6))) for p, s, _t in insts]
+
+        thr = 0.1
+        single, stable, err = [], [], ""
+        try:
+            for f in F:
+                base = predict_range(shim.REPO, "bottomup", f, f + 1, 1, peak_threshold=thr)
+                lo = predict_range(shim.REPO, "bottomup", f, f + 1, 1, peak_threshold=thr * 0.8)
+                hi = predict_range(shim.REPO, "bottomup", f, f + 1, 1, peak_threshold=thr * 1.25)
+                b_, l_, h_ = [sum([i for _f, i in r], []) for r in (base, lo, hi)]
+                single.append(projr(b_))
+                # a frame is judged only if no peak sits near the threshold (a 1e-7 numeric difference between batch
+                # sizes must not be able to flip a detection): same instances at 0.8x and 1.25x the threshold
+                stable.append(sorted(x["cls"] for x in projr(l_)) == sorted(x["cls"] for x in single[-1]) == sorted(x["cls"] for x in projr(h_)))
+        except Exception as e:
+            err = "singleton run: %s: %s" % (type(e).__name__, str(e)[:200])
+        Fs = [f for f in F if not err and stable[f]]
+        res.clause("real_network_frames_skipped_peak_near_threshold", len(F) - len(Fs))
+        for bs in ((2, 4) if tier == "quick" else (2, 3, 4, 8)):
+            for qm in ((1, 4) if tier == "quick" else (1, 2, 8)):
+                case = dict(id=len(cases), model="real-bottomup", k=0, refine="none", batch=Fs, animals=[len(x) for x in single] if not err else [],
+                            single=single, singlek=single, recs=[], raised=err, combo=["real-bottomup", bs, qm], seed=seed)
+                if not err:
+                    try:
+                        for fi, insts in predict_range(shim.REPO, "bottomup", F[0], F[-1] + 1, bs, queue_maxsize=qm, peak_threshold=thr):
+                            if fi in Fs or fi not in F:
+                                case["recs"].append(dict(fid=fi, insts=projr(insts)))
+                    except Exception as e:
+                        case["raised"] = "%s: %s" % (type(e).__name__, str(e)[:200])
+                cases.append(case)
+        res.coverage["real_network_batch_runs"] = sum(1 for c in cases if c["model"] == "real-bottomup")
     keep = ("id", "k", "batch", "animals", "single", "singlek", "recs", "raised")
     j = judge("Judge_C12", [{k_: v for k_, v in c.items() if k_ in keep} for c in cases], timeout=900, per_shard_min=40)
     res.add_judge("Judge_C12", j, "%d real batch runs" % len(cases))
     for cid, clause in j["rejected"]:
         c = cases[int(cid)]
-        key = dict(where={"single": "SingleInstancePredictor", "topdown": "TopDownPredictor", "bottomup": "BottomUpPredictor"}[c["model"]], kind=clause, max_instances=c["k"])
+        key = dict(where={"single": "SingleInstancePredictor", "topdown": "TopDownPredictor", "bottomup": "BottomUpPredictor", "real-bottomup": "main():bottomup checkpoint"}[c["model"]], kind=clause, max_instances=c["k"])
         if clause == "raised":
             key["error"] = c["raised"].split(":")[0 if not c["raised"].startswith("singleton") else 1].strip()
         res.violation(key, clause, dict(combo=c["combo"], batch=c["batch"], recs=c["recs"], singlek=c["singlek"], single=c["single"], animals=c["animals"]),
